@@ -25,7 +25,7 @@ const fn x(rust: &'static str, copy: bool, droppable: bool, clone_ok: bool) -> M
     MenuEntry { rust, copy, token: false, zst_counted: false, droppable, serde_ok: false, clone_ok }
 }
 
-pub const MENU: [MenuEntry; 45] = [
+pub const MENU: [MenuEntry; 50] = [
     e("u8", true, false, false, false, true),
     e("u16", true, false, false, false, true),
     e("u32", true, false, false, false, true),
@@ -71,6 +71,11 @@ pub const MENU: [MenuEntry; 45] = [
     e("vtypes::Tok256", false, true, false, true, true),
     e("vtypes::A128", true, false, false, false, true),
     x("&'static mut u32", false, false, false),
+    e("[u8; 20]", true, false, false, false, true),
+    e("vtypes::TokA32", false, true, false, true, true),
+    e("vtypes::Blob5K", false, true, false, true, true),
+    e("vtypes::Tile8K", true, false, false, false, true),
+    x("vtypes::Buf80K", true, false, true),
 ];
 
 /// Evaluates `$body` with `$t` bound to the menu type of index `$idx`.
@@ -122,7 +127,12 @@ macro_rules! with_menu_type {
             41 => { type $t = $crate::string::String<8>; $body }
             42 => { type $t = $crate::Tok256; $body }
             43 => { type $t = $crate::A128; $body }
-            _ => { type $t = &'static mut u32; $body }
+            44 => { type $t = &'static mut u32; $body }
+            45 => { type $t = [u8; 20]; $body }
+            46 => { type $t = $crate::TokA32; $body }
+            47 => { type $t = $crate::Blob5K; $body }
+            48 => { type $t = $crate::Tile8K; $body }
+            _ => { type $t = $crate::Buf80K; $body }
         }
     };
 }
@@ -159,6 +169,9 @@ macro_rules! with_copy_menu_type {
             39 => { type $t = *const u8; Some($body) }
             41 => { type $t = $crate::string::String<8>; Some($body) }
             43 => { type $t = $crate::A128; Some($body) }
+            45 => { type $t = [u8; 20]; Some($body) }
+            48 => { type $t = $crate::Tile8K; Some($body) }
+            49 => { type $t = $crate::Buf80K; Some($body) }
             _ => None,
         }
     };
